@@ -7,6 +7,7 @@ import Djc.Proofs.Render
 import Djc.Proofs.Leaf
 import Djc.Proofs.Tree
 import Djc.Proofs.Stitch
+import Djc.Proofs.TreeFail
 namespace Djc.Props.C14
 open Djc.Tpl Djc.Render Djc.Proofs.Render
 
@@ -250,5 +251,29 @@ theorem component_as_root_inherits_ids (env : Env) (nm : Str) (c k : Nat) (a : L
 the list (a root of `page`) — the `<ul>` carries ids 1 and 2, the looped `<li>` their own id only, the last `<li>` ids 1
 and 3; the whole token list is `Djc.Proofs.Stitch.exExpected` -/
 example : Djc.Proofs.Stitch.exOutputOk = true := by decide +kernel
+
+/-- **Ids are never reused over the life of the process — whatever the renders did.**  For any history of top-level
+renders of the tree fragment, each returning or raising (fault in a callback, `NotRegistered`, budget) in any order: the
+`get_context_data` calls logged over the whole history carry strictly increasing — hence pairwise distinct — ids, all
+generated during the history; an id used by a render that failed half-way is not handed out again by a later render. -/
+theorem ids_distinct_over_any_history (env : Env) (hlib : Djc.Proofs.Tree.GoodLib env) (fuel : Nat)
+    (qs : List Djc.Proofs.TreeFail.Req) (w : World) (hq : ∀ q ∈ qs, q.Good env) (hw : Djc.Proofs.Tree.WInv w) :
+    ∃ evs, (Djc.Proofs.TreeFail.runHist env fuel qs w).events = w.events ++ evs ∧
+      (∀ k ∈ Djc.Proofs.Tree.gcdIds evs, w.nextId ≤ k ∧ k < (Djc.Proofs.TreeFail.runHist env fuel qs w).nextId) ∧
+      (Djc.Proofs.Tree.gcdIds evs).Pairwise (· < ·) ∧ (Djc.Proofs.Tree.gcdIds evs).Nodup :=
+  Djc.Proofs.TreeFail.history_ids env hlib fuel qs w hq hw
+
+/-- **… and when every render of the history returned, no id is skipped either**: the ids are exactly
+`w.nextId, …, final.nextId - 1`, one instance each, in creation order, across all the pages rendered. -/
+theorem ids_of_returning_history_are_consecutive (env : Env) (hlib : Djc.Proofs.Tree.GoodLib env) (fuel : Nat)
+    (qs : List Djc.Proofs.TreeFail.Req) (w : World) (hq : ∀ q ∈ qs, q.Good env) (hw : Djc.Proofs.Tree.WInv w)
+    (hall : Djc.Proofs.TreeFail.allReturn env fuel qs w) :
+    ∃ evs, (Djc.Proofs.TreeFail.runHist env fuel qs w).events = w.events ++ evs ∧
+      Djc.Proofs.Tree.gcdIds evs = List.range' w.nextId ((Djc.Proofs.TreeFail.runHist env fuel qs w).nextId - w.nextId) :=
+  (Djc.Proofs.TreeFail.history_ids_returned env hlib fuel qs w hq hw hall).2
+
+/-- instance (kernel-evaluated): three renders of the example page, the first raising in its fourth callback — the ids
+of the whole history are pairwise distinct and the failed render's ids are not reused -/
+example : Djc.Proofs.TreeFail.exHistIds = true := by decide +kernel
 
 end Djc.Props.C14
